@@ -33,7 +33,7 @@ static int rstr_simple(struct rstr *rs, char *re)
 	rs->lend = re[0] == '$';
 	if (rs->lend)
 		re++;
-	if (!re[0]) {
+	if (!re[0] && (end > beg || (!rs->wbeg && !rs->wend))) {
 		int len = end - beg;
 		rs->str = malloc(len + 1);
 		memcpy(rs->str, beg, len);
